@@ -73,7 +73,25 @@ BytesFails(e) ==
    \o (IF ~IsErr(sd) /\ ~acc THEN <<"C06.decode">> ELSE <<>>)       \* a spec-decodable string is accepted
    \o (IF (e.terr = "") # acc THEN <<"C01.text">> ELSE IF acc /\ e.tval # e.val THEN <<"C01.text">> ELSE <<>>)
 
+\* a decrypted join-accept payload as a device receives it: 12 or 28 bytes; reserved bits / bytes are ignored
+\* (RxDelay bits 7..4, bytes 13..15 of a channel-mask CFList); the decoded value is one the encoder accepts again
+JaPlFails(e) ==
+  LET n == Len(e.bytes)
+      sized == n \in {12, 28}
+      acc == e.derr = ""
+      sd == DecodeJoinAccept(e.bytes)
+      exp == [sd EXCEPT !.rxdelay = sd.rxdelay % 16]
+      got == [k \in DOMAIN exp |-> e.val[k]]
+  IN  (IF OkErr(e.derr) /\ e.intact /\ (~acc \/ OkErr(e.rerr)) THEN <<>> ELSE <<"C09.total">>)
+   \o (IF sized # acc THEN <<"C06.joinaccept">>
+       ELSE IF acc /\ got # exp THEN <<"C06.joinaccept">>
+       ELSE <<>>)
+   \o (IF acc /\ sized /\ (e.rerr # "" \/ ~Has(e, "again")) THEN <<"X.ja-reencode">>
+       ELSE IF acc /\ sized /\ e.again # e.val THEN <<"X.ja-reencode">>
+       ELSE <<>>)
+
 Fails(e) == CASE e.ev = "rt" -> RtFails(e)
+              [] e.ev = "japl" -> JaPlFails(e)
               [] e.ev = "bytes" -> BytesFails(e)
               [] e.ev = "hang" -> <<e.prop \o ".hang">>    \* a call that never returned (recorded by the watchdog of the harness)
               [] OTHER -> <<"unknown-event">>
